@@ -16,8 +16,12 @@ PLAN = dict(
                 "tables, indirect jumps) -, composition by induction on the machine's fuel with progress (C06_sim_exec, C06_sim_exec_cf), image layout from "
                 "asm_wf, and the whole-program theorems C06_codegen_simulates_int and C06_codegen_simulates_cf (integer programs; first-order tail-recursive "
                 "programs with their return continuations): every terminating run of the linear machine is reproduced by run_x86 on the emitted code; "
-                "whole-program preservation for programs with heap blocks (Let/Switch, closures with captured variables) is stated "
-                "(C06_codegen_correct_statement) and checked by executing the implementation's output",
+                "(3) heap statements: relation hrel over the instrumented machine of Sem/AxHeap.v and the C09 abstraction of the ISA heap (up to zero padding), "
+                "bridge from the allocator invariant to the hypotheses of the x86 store/load/share/erase refinements, simulation theorems for Let, Switch, Create with "
+                "captured variables, Invoke, Substitute on objects, C06_sim_exec_heap (all eleven statement forms) and C06_codegen_simulates_partial / "
+                "C06_codegen_correct_linearized_partial: every terminating run of the linear machine is reproduced by run_x86 on the emitted code for ALL statement forms; "
+                "remaining hypotheses: heap_fits (the run stays inside the 32 MiB heap region; necessary, real code segfaults beyond it) and, for programs that are not "
+                "linearizer outputs, ann_check_prog (proved for every output of the linearizer); the implementation's output is executed on the ISA model on every run",
     assumptions=["Sem/X86Sem.v is the meaning of the emitted instructions (validated against the AxCut machine on every run; native execution in C01)",
                  "Sem/AxSem.v run_linear is the meaning of linear AxCut"],
     trusted=["coq/Sem/X86Sem.v (x86-64 subset semantics, external-call model)", "coq/Sem/AxSem.v (AxCut machines)"],
